@@ -205,7 +205,10 @@ func (p *Performer) Do(req *http.Request) (*http.Response, error) {
 		Status: strconv.Itoa(r.Status) + " " + http.StatusText(r.Status), StatusCode: r.Status,
 		Proto: "HTTP/1.1", ProtoMajor: 1, ProtoMinor: 1, Header: h, Request: req,
 	}
-	if r.Chunked {
+	if r.Status == 304 {
+		// as http.Transport delivers a 304: no body, length 0; a Content-Length line only if the origin wrote one
+		resp.ContentLength = 0
+	} else if r.Chunked {
 		resp.ContentLength = -1
 		resp.TransferEncoding = []string{"chunked"}
 		h.Del("Content-Length")
